@@ -106,6 +106,18 @@ Definition any_member_ok (vv : value) : bool :=
   match vv with VMap [(tag, val)] => name_okb tag && dom03 val | _ => dom03 vv end.
 End Img.
 
+(* the root of the quantifier for Map.Xml / Map.XmlIndent: a multi-key (or empty) map, or a
+   single-key map whose key is an element name and whose value is not a list *)
+Definition root_ok (o : opts) (m : entries) : bool :=
+  match m with
+  | [(k, v)] => negb (is_list v) && name_okb k && dom03 o v
+  | _ => dom03 o (VMap m)
+  end.
+(* any value for AnyXml: the root and element tags are names; list members as [any_member_ok] *)
+Definition any_ok (o : opts) (v : value) (rt et : str) : bool :=
+  name_okb rt && name_okb et &&
+  match v with VList l => forallb (any_member_ok o) l | _ => dom03 o v end.
+
 (* the option records the statement is about: the decoder's default conventions (no key
    folding, no tag sequence numbers, no simple-values-as-map, no decoder-side escaping);
    the attribute prefix, the key prefix, the empty-element syntax, keep-spaces and
